@@ -865,6 +865,20 @@ def cases(ctx):
     long = 'ab' * 600 + 'c' + 'ab' * 600
     out.append({'text': [long, long], 'ic': True, 'row': 0, 'col': 0, 'cmds': [['/', [['lit', 'c', 0]], 2, '']], 'src': 'edge'})
     out.append({'text': [long, long], 'ic': True, 'row': 1, 'col': 1300, 'cmds': [['?', [['lit', 'c', 0], ['any', 0, 1]], 2, '']], 'src': 'edge'})
+    # the classifier boundary of rstr_make (no random draws: every position of small fixed buffers): a keyword that is a plain literal except for
+    # ONE anchor character in the middle is NOT a simple pattern -- a^b / a$b are regexes that can never match, whatever the text spells;
+    # a keyword whose only special characters are the leading ^ \\< and the trailing \\> $ is one
+    mid_pats = [L('a') + [B_] + L('b'), L('ab') + [B_] + L('a'), L('é') + [B_] + L('a'), L('a') + [E_] + L('b'), [B_] + L('a') + [B_] + L('b'),
+                [B_] + L('a^b'), L('a^b') + [E_], [['wbeg', 0, 0]] + L('a') + [B_] + L('b')]
+    mid_texts = [['a^b x', 'xa^b', 'ab^a a^b'], ['é^a', 'a$b a$b', 'a^b'], ['ab', 'a', 'b^a']]
+    for text in mid_texts:
+        for toks in mid_pats:
+            for r, line in enumerate(text):
+                for c in range(max(1, len(line))):
+                    if ctx.quick and (r + c + len(toks)) % 2:
+                        continue
+                    for kind in '/?':
+                        out.append({'text': text, 'ic': True, 'row': r, 'col': c, 'cmds': [[kind, toks, 1, '']], 'src': 'classifier'})
     return out
 
 
